@@ -31,6 +31,12 @@ func (e *Engine) smCells(st *State, mp Val, key Val) (root string, idx []*Term) 
 		}
 	}
 	kt := "?"
+	if tg := key.iTag(); tg.Op != OConst {
+		// a key whose dynamic type is fixed by the path condition (requires is(key, T))
+		if c, ok := st.constEqs()[tg]; ok {
+			key = Val{key.T, append([]*Term{c}, key.L[1:]...)}
+		}
+	}
 	if key.iTag().Op == OConst && typeOfTag[key.iTag().Val] != nil {
 		kt = typeName(typeOfTag[key.iTag().Val])
 	} else {
